@@ -392,6 +392,32 @@ def fromFloat (T : Ty) (B : Spec.BinFmt) (bits : Nat) (ryu : List Nat) : Res :=
   else if B.isInf bits then wrap (fromParsed T (.infinity neg))
   else fromText T inf ryu
 
+/-! ## The `TryFrom<int>` / `TryFrom<float>` impls: the error of `decimal_from_parsed` is returned, not dropped -/
+
+/-- `none` = panic (`expect`); for the pairs that offer `From`, `TryFrom` is the blanket impl over it -/
+def fromTextT (T : Ty) (infallible : Bool) (text : List Nat) : Option (Except OverflowErr Buf) :=
+  match parseFiniteStr text with
+  | .error _ => none
+  | .ok p =>
+    match fromParsed T p with
+    | .ok b => some (.ok b)
+    | .error e => if infallible then none else some (.error e)
+
+/-- `<T as TryFrom<int>>::try_from(v)` -/
+def fromIntT (T : Ty) (I : Spec.IntTy) (v : Int) : Option (Except OverflowErr Buf) :=
+  fromTextT T (T.intInfallible I) (Spec.toDecimal v)
+
+/-- `<T as TryFrom<f32|f64>>::try_from(f)` -/
+def fromFloatT (T : Ty) (B : Spec.BinFmt) (bits : Nat) (ryu : List Nat) : Option (Except OverflowErr Buf) :=
+  let neg := bits ≥ B.signMask
+  let inf := T.floatInfallible B
+  let wrap : Except OverflowErr Buf → Option (Except OverflowErr Buf) := fun r => match r with
+    | .ok b => some (.ok b)
+    | .error e => if inf then none else some (.error e)
+  if B.isNan bits then wrap (fromParsed T (.nan ⟨TextBuf.new (.array scratchCap) [], false, neg, none⟩))
+  else if B.isInf bits then wrap (fromParsed T (.infinity neg))
+  else fromTextT T inf ryu
+
 /-! ## Byte-level API (`bitstring/*.rs`) -/
 
 def tryFromLeBytes (T : Ty) (bytes : List Nat) : Except OverflowErr Buf :=
